@@ -282,6 +282,97 @@ func stopBounded(srv *gldap.Server) {
 	}
 }
 
+// c17retry: Run fails (port in use / malformed address), Ready stays false; the same server is then run on an
+// address it can bind: Ready must become true and a connection must be served until Stop.
+func c17retry(c *Ctx, kind string) {
+	c.Count("cases", 1)
+	port := freePort()
+	addr := fmt.Sprintf("127.0.0.1:%d", port)
+	rep := map[string]string{"addr": "127.0.0.1:PORT", "kind": kind}
+	srv, err := gldap.NewServer(gldap.WithLogger(quietLogger))
+	if err != nil {
+		panic(err)
+	}
+	mux, _ := gldap.NewMux()
+	_ = mux.Bind(func(w *gldap.ResponseWriter, r *gldap.Request) {
+		_ = w.Write(r.NewBindResponse(gldap.WithResponseCode(gldap.ResultSuccess)))
+	})
+	_ = srv.Router(mux)
+	first := addr
+	var holder net.Listener
+	if kind == "retry-after-in-use" {
+		holder, err = net.Listen("tcp", addr)
+		if err != nil {
+			return
+		}
+	} else {
+		first = "127.0.0.1:notaport"
+	}
+	c.Count("steps", 1)
+	ferr := make(chan error, 1)
+	go func() { ferr <- srv.Run(first) }()
+	select {
+	case e := <-ferr:
+		if e == nil || srv.Ready() {
+			if holder != nil {
+				holder.Close()
+			}
+			c.Report("Run returns nil or Ready is true for an address it cannot listen on ("+kind+")", fmt.Sprintf("err=%v ready=%v", e, srv.Ready()), rep)
+			return
+		}
+	case <-time.After(20 * time.Second):
+		if holder != nil {
+			holder.Close()
+		}
+		stopBounded(srv)
+		c.Report("Run does not return an error for an address it cannot listen on ("+kind+")", first, rep)
+		return
+	}
+	if holder != nil {
+		holder.Close()
+	}
+	c.Count("steps", 1)
+	runErr := make(chan error, 1)
+	go func() { runErr <- srv.Run(addr) }()
+	deadline := time.Now().Add(20 * time.Second)
+	for !srv.Ready() {
+		select {
+		case e := <-runErr:
+			c.Outcome(kind + ": second Run returned")
+			c.Report("after a Run that could not listen, a second Run of the same server on a free address returns without serving", fmt.Sprintf("addr %q: %v", addr, e), rep)
+			return
+		default:
+		}
+		if time.Now().After(deadline) {
+			stopBounded(srv)
+			c.Report("after a Run that could not listen, Ready never becomes true for a second Run on a free address", addr, rep)
+			return
+		}
+		time.Sleep(20 * time.Microsecond)
+	}
+	var berr error
+	for i := 0; i < 3 && berr == nil; i++ {
+		c.Count("steps", 1)
+		conn, err := net.DialTimeout("tcp", addr, 5*time.Second)
+		if err != nil {
+			berr = err
+			break
+		}
+		lc := ldap.NewConn(conn, false)
+		lc.Start()
+		lc.SetTimeout(10 * time.Second)
+		berr = lc.Bind("cn=a", "p")
+		lc.Close()
+	}
+	stopBounded(srv)
+	if berr != nil {
+		c.Outcome(kind + ": ready but not served")
+		c.Report("Ready reported true (second Run after a failed one) but a connection is not served", fmt.Sprintf("addr %q: %v", addr, berr), rep)
+		return
+	}
+	c.Outcome(kind + ": failed Run, then ready, connected, served")
+}
+
 func c17run(c *Ctx) {
 	type a struct{ tmpl, kind string }
 	var cases []a
@@ -308,17 +399,23 @@ func c17run(c *Ctx) {
 	for _, t := range []string{"127.0.0.1:PORT", ":PORT", "localhost:PORT"} {
 		cases = append(cases, a{t, "in-use"}, a{t, "in-use-by-gldap"})
 	}
+	// a Run that could not listen, then a Run of the same server on an address it can bind
+	cases = append(cases, a{"127.0.0.1:PORT", "retry-after-in-use"}, a{"127.0.0.1:PORT", "retry-after-malformed"})
 	reps := 3
 	if c.Thorough() {
 		reps = 25
 	}
 	for _, cs := range cases {
 		n := 1
-		if strings.HasPrefix(cs.kind, "valid") || strings.HasPrefix(cs.kind, "in-use") {
+		if strings.HasPrefix(cs.kind, "valid") || strings.HasPrefix(cs.kind, "in-use") || strings.HasPrefix(cs.kind, "retry") {
 			n = reps // the Ready => connectable cross-check is repeated
 		}
 		for i := 0; i < n; i++ {
 			if c.Mine() {
+				if strings.HasPrefix(cs.kind, "retry") {
+					c17retry(c, cs.kind)
+					continue
+				}
 				c17case(c, cs.tmpl, cs.kind)
 				if len(c.Samp) < 3 {
 					c.Sample(map[string]string{"addr": cs.tmpl, "kind": cs.kind})
